@@ -52,7 +52,7 @@ struct Reply {
 }
 
 enum Cmd {
-    Generate(Arc<str>, u64, u32, u8),
+    Generate(Arc<str>, u64, u32, u8, u8),
     Canary,
     Exit,
 }
@@ -62,6 +62,15 @@ struct SimThread {
     rx: Receiver<Reply>,
     reply_tx: Sender<Reply>,
     handle: Option<std::thread::JoinHandle<()>>,
+}
+
+fn stdio_errno(fault: u8) -> i32 {
+    match fault {
+        0 => 0,
+        1 => 28, // ENOSPC
+        2 => 32, // EPIPE
+        _ => 5,  // EIO
+    }
 }
 
 fn canary_order() -> u64 {
@@ -95,7 +104,7 @@ impl SimThread {
                 TL_KEYS.with(|k| k.set(Some(keys)));
                 while let Ok(cmd) = crx.recv() {
                     match cmd {
-                        Cmd::Generate(text, env_salt, sim_cpus, placement) => {
+                        Cmd::Generate(text, env_salt, sim_cpus, placement, stdio_fault) => {
                             // where the caller's buffer sits is ambient state too: the same bytes are
                             // handed over at address = 16-aligned + placement (0 = canonical)
                             let mut buf: Vec<u8> = vec![0u8; text.len() + 32];
@@ -109,11 +118,13 @@ impl SimThread {
                             let s0 = THREADS_SPAWNED_IN_GENERATE.load(Ordering::SeqCst);
                             TL_ENV_SALT.with(|s| s.set(env_salt));
                             TL_SIM_CPUS.with(|c| c.set(sim_cpus));
+                            TL_STDIO_ERRNO.with(|c| c.set(stdio_errno(stdio_fault)));
                             TL_IN_GENERATE.with(|f| f.set(true));
                             let outcome = run_generate(placed);
                             TL_IN_GENERATE.with(|f| f.set(false));
                             TL_ENV_SALT.with(|s| s.set(0));
                             TL_SIM_CPUS.with(|c| c.set(0));
+                            TL_STDIO_ERRNO.with(|c| c.set(0));
                             let g1 = GETRANDOM_IN_GENERATE.load(Ordering::SeqCst);
                             let c1 = CLOCK_READS_IN_GENERATE.load(Ordering::SeqCst);
                             let e1 = GETENV_IN_GENERATE.load(Ordering::SeqCst);
@@ -248,6 +259,9 @@ struct Step {
     cpus: u32,
     /// address of the text buffer handed to generate, modulo 16 (0 = canonical)
     placement: u8,
+    /// state of the process's stdout/stderr during the call: 0 = writable (canonical), 1 = every
+    /// write fails with ENOSPC, 2 = EPIPE, 3 = EIO
+    stdio_fault: u8,
     text: usize,
 }
 
@@ -284,7 +298,7 @@ fn timeout_outcome() -> Outcome {
 fn canonical(text: &str, base_dir: &str) -> Outcome {
     reset_ambient(base_dir);
     let t = SimThread::spawn((0, 0));
-    match t.call(Cmd::Generate(Arc::from(text), 0, 1, 0)) {
+    match t.call(Cmd::Generate(Arc::from(text), 0, 1, 0, 0)) {
         Some(r) => {
             t.retire();
             r.outcome
@@ -324,7 +338,7 @@ fn exec_script(script: &Script, texts: &[Arc<str>], base_dir: &str, upto: Option
             threads[st.inc] = Some(SimThread::spawn(script.incarnations[st.inc]));
         }
         SIM_TICK_NS.store(st.clock_tick_ns, Ordering::SeqCst);
-        let r = threads[st.inc].as_ref().unwrap().call(Cmd::Generate(texts[st.text].clone(), st.env_salt, st.cpus, st.placement));
+        let r = threads[st.inc].as_ref().unwrap().call(Cmd::Generate(texts[st.text].clone(), st.env_salt, st.cpus, st.placement, st.stdio_fault));
         SIM_TICK_NS.store(0, Ordering::SeqCst);
         calls[st.inc] += 1;
         let r = match r {
@@ -364,6 +378,9 @@ fn exec_script(script: &Script, texts: &[Arc<str>], base_dir: &str, upto: Option
 }
 
 fn draw_script(rng: &mut Rng, n_texts: usize, base_dir: &str) -> (Script, J) {
+    // dimensions added later draw from a side stream, so that the scripts of earlier versions of
+    // the check stay what they were
+    let mut side = common::gen::side_stream(rng, 0x57d10);
     let n_threads = rng.range(1, 4);
     let len = rng.range(1, 12);
     let key_policy = rng.weighted(&[8, 2, 2, 1, 1]);
@@ -434,6 +451,7 @@ fn draw_script(rng: &mut Rng, n_texts: usize, base_dir: &str) -> (Script, J) {
             env_salt,
             cpus: if rng.chance(1, 2) { rng.range(1, 64) as u32 } else { *rng.pick(&[1u32, 1, 2, 3, 8, 64, 128, 0]) },
             placement: if rng.chance(1, 2) { rng.below(16) as u8 } else { 0 },
+            stdio_fault: if side.chance(1, 3) { 1 + side.below(3) as u8 } else { 0 },
             text: rng.below(n_texts),
         });
     }
@@ -489,6 +507,7 @@ fn script_to_json(s: &Script) -> J {
                             .set("env_salt", J::Int(st.env_salt as i128))
                             .set("cpus", J::Int(st.cpus as i128))
                             .set("placement", J::Int(st.placement as i128))
+                            .set("stdio_fault", J::Int(st.stdio_fault as i128))
                             .set("text", J::uz(st.text))
                     })
                     .collect(),
@@ -518,6 +537,7 @@ fn script_from_json(j: &J) -> Result<Script, String> {
             env_salt: st.get("env_salt").and_then(|x| x.as_int()).unwrap_or(0) as u64,
             cpus: st.get("cpus").and_then(|x| x.as_int()).unwrap_or(1) as u32,
             placement: st.get("placement").and_then(|x| x.as_int()).unwrap_or(0) as u8,
+            stdio_fault: st.get("stdio_fault").and_then(|x| x.as_int()).unwrap_or(0) as u8,
             text: st.get("text").and_then(|x| x.as_usize()).ok_or("text")?,
         });
     }
@@ -774,7 +794,7 @@ fn shrink(mut f: Failure, base_dir: &str, budget: usize) -> (Failure, usize) {
     }
     // 2. drop ambient mutations and clock jumps, step by step
     for i in 0..f.script.steps.len() {
-        for what in 0..7 {
+        for what in 0..8 {
             if steps >= budget {
                 break;
             }
@@ -791,6 +811,7 @@ fn shrink(mut f: Failure, base_dir: &str, budget: usize) -> (Failure, usize) {
                 4 if st.env_salt != 0 => st.env_salt = 0,
                 5 if st.cpus != 1 => st.cpus = 1,
                 6 if st.placement != 0 => st.placement = 0,
+                7 if st.stdio_fault != 0 => st.stdio_fault = 0,
                 _ => continue,
             }
             steps += 1;
@@ -1032,6 +1053,7 @@ fn main() {
             let mut getenv_in_gen = 0u64;
             let mut env_salted_calls = 0u64;
             let mut ticking_calls = 0u64;
+            let mut broken_stdio_calls = 0u64;
             let mut sim_real_span: i128 = 0;
             let mut sim_mono_span: u128 = 0;
             let mut env_mutations = 0u64;
@@ -1184,6 +1206,7 @@ fn main() {
                                     env_salt: 0,
                                     cpus: 1,
                                     placement: 0,
+                                    stdio_fault: 0,
                                     text: t,
                                 });
                             }
@@ -1217,6 +1240,7 @@ fn main() {
                                 env_salt: 0,
                                 cpus,
                                 placement: 0,
+                                stdio_fault: 0,
                                 text: t,
                             });
                         }
@@ -1251,6 +1275,7 @@ fn main() {
                     getenv_in_gen += rec.getenv_in_generate;
                     env_salted_calls += (st.env_salt != 0) as u64;
                     ticking_calls += (st.clock_tick_ns != 0) as u64;
+                    broken_stdio_calls += (st.stdio_fault != 0) as u64;
                     canaries.insert(rec.canary);
                     env_mutations += st.env.len() as u64;
                     cwd_changes += st.cwd.is_some() as u64;
@@ -1373,6 +1398,7 @@ fn main() {
                 .set("getenv_in_generate", J::Int(getenv_in_gen as i128))
                 .set("calls_with_simulated_environment", J::Int(env_salted_calls as i128))
                 .set("calls_with_ticking_clock", J::Int(ticking_calls as i128))
+                .set("calls_with_broken_stdio", J::Int(broken_stdio_calls as i128))
                 .set("clock_reads_total", J::Int(CLOCK_READS.load(Ordering::SeqCst) as i128))
                 .set("env_mutations", J::Int(env_mutations as i128))
                 .set("cwd_changes", J::Int(cwd_changes as i128))
@@ -1394,6 +1420,8 @@ fn main() {
                 }))
                 .set("firstcall_children", J::Int(firstcall_children as i128))
                 .set("threads_spawned_inside_generate", J::Int(threads_spawned_total as i128))
+                .set("stdio_writes_inside_generate", J::Int(STDIO_WRITES_IN_GENERATE.load(Ordering::SeqCst) as i128))
+                .set("stdio_write_faults_fired", J::Int(STDIO_WRITE_FAULTS_FIRED.load(Ordering::SeqCst) as i128))
                 .set("amplified_runs", J::Int(amplified_runs as i128))
                 .set("generate_timeouts", J::Int(TIMEOUTS.load(Ordering::SeqCst) as i128))
                 .set("timeout_text_ids", J::Arr(timeout_texts.iter().map(|i| J::uz(*i)).collect()))
@@ -1442,7 +1470,7 @@ fn main() {
             let file = args.get(2).expect("text file");
             let t = std::fs::read_to_string(file).expect("read");
             let th = SimThread::spawn((0, 0));
-            let o = match th.call(Cmd::Generate(Arc::from(t.as_str()), 0, 1, 0)) {
+            let o = match th.call(Cmd::Generate(Arc::from(t.as_str()), 0, 1, 0, 0)) {
                 Some(r) => {
                     th.retire();
                     r.outcome
